@@ -50,42 +50,42 @@ fn options() -> Vec<Opt> {
         };
     }
     vec![
-        o!("mode", "trippy", [("stream", "\"stream\"", "Stream"), ("silent", "\"silent\"", "Silent"), ("pretty", "\"pretty\"", "Pretty")], "Tui", |c| format!("{:?}", c.mode)),
+        o!("mode", "trippy", [("stream", "\"stream\"", "Stream"), ("silent", "\"silent\"", "Silent"), ("pretty", "\"pretty\"", "Pretty"), ("tui", "\"tui\"", "Tui")], "Tui", |c| format!("{:?}", c.mode)),
         flag!("unprivileged", "trippy", |c| (c.privilege_mode == PrivilegeMode::Unprivileged).to_string()),
-        o!("log-format", "trippy", [("json", "\"json\"", "Json"), ("compact", "\"compact\"", "Compact")], "Pretty", |c| format!("{:?}", c.log_format)),
-        o!("log-filter", "trippy", [("a=info", "\"a=info\"", "a=info"), ("b=trace", "\"b=trace\"", "b=trace")], "trippy=debug", |c| c.log_filter.clone()),
-        o!("log-span-events", "trippy", [("active", "\"active\"", "Active"), ("full", "\"full\"", "Full")], "Off", |c| format!("{:?}", c.log_span_events)),
-        o!("protocol", "strategy", [("udp", "\"udp\"", "Udp"), ("tcp", "\"tcp\"", "Tcp")], "Icmp", |c| format!("{:?}", c.protocol)),
-        o!("addr-family", "strategy", [("ipv6", "\"ipv6\"", "Ipv6Only"), ("ipv6-then-ipv4", "\"ipv6-then-ipv4\"", "Ipv6thenIpv4"), ("system", "\"system\"", "System")], "Ipv4thenIpv6", |c| format!("{:?}", c.addr_family)),
-        o!("min-round-duration", "strategy", [("100ms", "\"100ms\"", d(100)), ("250ms", "\"250ms\"", d(250))], d(1000), |c| format!("{:?}", c.min_round_duration)),
-        o!("max-round-duration", "strategy", [("2s", "\"2s\"", d(2000)), ("3500ms", "\"3500ms\"", d(3500))], d(1000), |c| format!("{:?}", c.max_round_duration)),
-        o!("grace-duration", "strategy", [("20ms", "\"20ms\"", d(20)), ("1s", "\"1s\"", d(1000))], d(100), |c| format!("{:?}", c.grace_duration)),
-        o!("initial-sequence", "strategy", [("1000", "1000", "1000"), ("64511", "64511", "64511")], "33434", |c| c.initial_sequence.to_string()),
-        o!("multipath-strategy", "strategy", [("paris", "\"paris\"", "Paris"), ("dublin", "\"dublin\"", "Dublin")], "Classic", |c| format!("{:?}", c.multipath_strategy)),
-        o!("max-inflight", "strategy", [("1", "1", "1"), ("255", "255", "255")], "24", |c| c.max_inflight.to_string()),
-        o!("first-ttl", "strategy", [("2", "2", "2"), ("5", "5", "5")], "1", |c| c.first_ttl.to_string()),
-        o!("max-ttl", "strategy", [("30", "30", "30"), ("254", "254", "254")], "64", |c| c.max_ttl.to_string()),
-        o!("packet-size", "strategy", [("100", "100", "100"), ("1024", "1024", "1024")], "84", |c| c.packet_size.to_string()),
-        o!("payload-pattern", "strategy", [("255", "255", "255"), ("85", "85", "85")], "0", |c| c.payload_pattern.to_string()),
-        o!("tos", "strategy", [("184", "184", "184"), ("255", "255", "255")], "0", |c| c.tos.to_string()),
+        o!("log-format", "trippy", [("json", "\"json\"", "Json"), ("compact", "\"compact\"", "Compact"), ("pretty", "\"pretty\"", "Pretty")], "Pretty", |c| format!("{:?}", c.log_format)),
+        o!("log-filter", "trippy", [("a=info", "\"a=info\"", "a=info"), ("b=trace", "\"b=trace\"", "b=trace"), ("trippy=debug", "\"trippy=debug\"", "trippy=debug")], "trippy=debug", |c| c.log_filter.clone()),
+        o!("log-span-events", "trippy", [("active", "\"active\"", "Active"), ("full", "\"full\"", "Full"), ("off", "\"off\"", "Off")], "Off", |c| format!("{:?}", c.log_span_events)),
+        o!("protocol", "strategy", [("udp", "\"udp\"", "Udp"), ("tcp", "\"tcp\"", "Tcp"), ("icmp", "\"icmp\"", "Icmp")], "Icmp", |c| format!("{:?}", c.protocol)),
+        o!("addr-family", "strategy", [("ipv6", "\"ipv6\"", "Ipv6Only"), ("ipv6-then-ipv4", "\"ipv6-then-ipv4\"", "Ipv6thenIpv4"), ("system", "\"system\"", "System"), ("ipv4-then-ipv6", "\"ipv4-then-ipv6\"", "Ipv4thenIpv6")], "Ipv4thenIpv6", |c| format!("{:?}", c.addr_family)),
+        o!("min-round-duration", "strategy", [("100ms", "\"100ms\"", d(100)), ("250ms", "\"250ms\"", d(250)), ("1s", "\"1s\"", d(1000))], d(1000), |c| format!("{:?}", c.min_round_duration)),
+        o!("max-round-duration", "strategy", [("2s", "\"2s\"", d(2000)), ("3500ms", "\"3500ms\"", d(3500)), ("1s", "\"1s\"", d(1000))], d(1000), |c| format!("{:?}", c.max_round_duration)),
+        o!("grace-duration", "strategy", [("20ms", "\"20ms\"", d(20)), ("1s", "\"1s\"", d(1000)), ("100ms", "\"100ms\"", d(100))], d(100), |c| format!("{:?}", c.grace_duration)),
+        o!("initial-sequence", "strategy", [("1000", "1000", "1000"), ("64511", "64511", "64511"), ("33434", "33434", "33434"), ("0", "0", "0")], "33434", |c| c.initial_sequence.to_string()),
+        o!("multipath-strategy", "strategy", [("paris", "\"paris\"", "Paris"), ("dublin", "\"dublin\"", "Dublin"), ("classic", "\"classic\"", "Classic")], "Classic", |c| format!("{:?}", c.multipath_strategy)),
+        o!("max-inflight", "strategy", [("1", "1", "1"), ("255", "255", "255"), ("24", "24", "24")], "24", |c| c.max_inflight.to_string()),
+        o!("first-ttl", "strategy", [("2", "2", "2"), ("5", "5", "5"), ("1", "1", "1")], "1", |c| c.first_ttl.to_string()),
+        o!("max-ttl", "strategy", [("30", "30", "30"), ("254", "254", "254"), ("64", "64", "64")], "64", |c| c.max_ttl.to_string()),
+        o!("packet-size", "strategy", [("100", "100", "100"), ("1024", "1024", "1024"), ("84", "84", "84")], "84", |c| c.packet_size.to_string()),
+        o!("payload-pattern", "strategy", [("255", "255", "255"), ("85", "85", "85"), ("0", "0", "0")], "0", |c| c.payload_pattern.to_string()),
+        o!("tos", "strategy", [("184", "184", "184"), ("255", "255", "255"), ("0", "0", "0")], "0", |c| c.tos.to_string()),
         flag!("icmp-extensions", "strategy", |c| (c.icmp_extension_parse_mode == IcmpExtensionParseMode::Enabled).to_string()),
-        o!("read-timeout", "strategy", [("20ms", "\"20ms\"", d(20)), ("100ms", "\"100ms\"", d(100))], d(10), |c| format!("{:?}", c.read_timeout)),
-        o!("max-samples", "strategy", [("1", "1", "1"), ("1000", "1000", "1000")], "256", |c| c.max_samples.to_string()),
-        o!("max-flows", "strategy", [("1", "1", "1"), ("128", "128", "128")], "64", |c| c.max_flows.to_string()),
+        o!("read-timeout", "strategy", [("20ms", "\"20ms\"", d(20)), ("100ms", "\"100ms\"", d(100)), ("10ms", "\"10ms\"", d(10))], d(10), |c| format!("{:?}", c.read_timeout)),
+        o!("max-samples", "strategy", [("1", "1", "1"), ("1000", "1000", "1000"), ("256", "256", "256")], "256", |c| c.max_samples.to_string()),
+        o!("max-flows", "strategy", [("1", "1", "1"), ("128", "128", "128"), ("64", "64", "64")], "64", |c| c.max_flows.to_string()),
         o!("source-address", "strategy", [("192.168.1.2", "\"192.168.1.2\"", "Some(192.168.1.2)"), ("10.9.9.9", "\"10.9.9.9\"", "Some(10.9.9.9)")], "None", |c| format!("{:?}", c.source_addr)),
-        o!("dns-resolve-method", "dns", [("google", "\"google\"", "Google"), ("cloudflare", "\"cloudflare\"", "Cloudflare")], "System", |c| format!("{:?}", c.dns_resolve_method)),
+        o!("dns-resolve-method", "dns", [("google", "\"google\"", "Google"), ("cloudflare", "\"cloudflare\"", "Cloudflare"), ("system", "\"system\"", "System")], "System", |c| format!("{:?}", c.dns_resolve_method)),
         flag!("dns-lookup-as-info", "dns", |c| c.dns_lookup_as_info.to_string()),
-        o!("dns-timeout", "dns", [("1s", "\"1s\"", d(1000)), ("7s", "\"7s\"", d(7000))], d(5000), |c| format!("{:?}", c.dns_timeout)),
-        o!("dns-ttl", "dns", [("10s", "\"10s\"", d(10_000)), ("1h", "\"1h\"", d(3_600_000))], d(300_000), |c| format!("{:?}", c.dns_ttl)),
-        o!("report-cycles", "report", [("3", "3", "3"), ("77", "77", "77")], "10", |c| c.report_cycles.to_string()),
-        o!("tui-address-mode", "tui", [("ip", "\"ip\"", "Ip"), ("both", "\"both\"", "Both")], "Host", |c| format!("{:?}", c.tui_address_mode)),
-        o!("tui-as-mode", "tui", [("prefix", "\"prefix\"", "Prefix"), ("name", "\"name\"", "Name"), ("country-code", "\"country-code\"", "CountryCode")], "Asn", |c| format!("{:?}", c.tui_as_mode)),
-        o!("tui-custom-columns", "tui", [("hol", "\"hol\"", "hol"), ("holsravbwdtSPQ", "\"holsravbwdtSPQ\"", "holsravbwdtSPQ")], "holsravbwdt", |c| c.tui_custom_columns.0.iter().map(|x| format!("{x}")).collect::<String>()),
-        o!("tui-icmp-extension-mode", "tui", [("mpls", "\"mpls\"", "Mpls"), ("all", "\"all\"", "All")], "Off", |c| format!("{:?}", c.tui_icmp_extension_mode)),
-        o!("tui-geoip-mode", "tui", [("short", "\"short\"", "Short"), ("location", "\"location\"", "Location")], "Off", |c| format!("{:?}", c.tui_geoip_mode)),
-        o!("tui-max-addrs", "tui", [("3", "3", "Some(3)"), ("9", "9", "Some(9)")], "None", |c| format!("{:?}", c.tui_max_addrs)),
+        o!("dns-timeout", "dns", [("1s", "\"1s\"", d(1000)), ("7s", "\"7s\"", d(7000)), ("5s", "\"5s\"", d(5000))], d(5000), |c| format!("{:?}", c.dns_timeout)),
+        o!("dns-ttl", "dns", [("10s", "\"10s\"", d(10_000)), ("1h", "\"1h\"", d(3_600_000)), ("300s", "\"300s\"", d(300_000))], d(300_000), |c| format!("{:?}", c.dns_ttl)),
+        o!("report-cycles", "report", [("3", "3", "3"), ("77", "77", "77"), ("10", "10", "10")], "10", |c| c.report_cycles.to_string()),
+        o!("tui-address-mode", "tui", [("ip", "\"ip\"", "Ip"), ("both", "\"both\"", "Both"), ("host", "\"host\"", "Host")], "Host", |c| format!("{:?}", c.tui_address_mode)),
+        o!("tui-as-mode", "tui", [("prefix", "\"prefix\"", "Prefix"), ("name", "\"name\"", "Name"), ("country-code", "\"country-code\"", "CountryCode"), ("asn", "\"asn\"", "Asn")], "Asn", |c| format!("{:?}", c.tui_as_mode)),
+        o!("tui-custom-columns", "tui", [("hol", "\"hol\"", "hol"), ("holsravbwdtSPQ", "\"holsravbwdtSPQ\"", "holsravbwdtSPQ"), ("holsravbwdt", "\"holsravbwdt\"", "holsravbwdt")], "holsravbwdt", |c| c.tui_custom_columns.0.iter().map(|x| format!("{x}")).collect::<String>()),
+        o!("tui-icmp-extension-mode", "tui", [("mpls", "\"mpls\"", "Mpls"), ("all", "\"all\"", "All"), ("off", "\"off\"", "Off")], "Off", |c| format!("{:?}", c.tui_icmp_extension_mode)),
+        o!("tui-geoip-mode", "tui", [("short", "\"short\"", "Short"), ("location", "\"location\"", "Location"), ("off", "\"off\"", "Off")], "Off", |c| format!("{:?}", c.tui_geoip_mode)),
+        o!("tui-max-addrs", "tui", [("3", "3", "Some(3)"), ("9", "9", "Some(9)"), ("0", "0", "None")], "None", |c| format!("{:?}", c.tui_max_addrs)),
         flag!("tui-preserve-screen", "tui", |c| c.tui_preserve_screen.to_string()),
-        o!("tui-refresh-rate", "tui", [("50ms", "\"50ms\"", d(50)), ("1s", "\"1s\"", d(1000))], d(100), |c| format!("{:?}", c.tui_refresh_rate)),
+        o!("tui-refresh-rate", "tui", [("50ms", "\"50ms\"", d(50)), ("1s", "\"1s\"", d(1000)), ("100ms", "\"100ms\"", d(100))], d(100), |c| format!("{:?}", c.tui_refresh_rate)),
         o!("tui-privacy-max-ttl", "tui", [("0", "0", "Some(0)"), ("7", "7", "Some(7)")], "None", |c| format!("{:?}", c.tui_privacy_max_ttl)),
         o!("tui-locale", "tui", [("fr", "\"fr\"", "Some(\"fr\")"), ("de", "\"de\"", "Some(\"de\")")], "None", |c| format!("{:?}", c.tui_locale)),
         o!("tui-timezone", "tui", [("UTC", "\"UTC\"", "Some(UTC)"), ("Europe/London", "\"Europe/London\"", "Some(Europe/London)")], "None", |c| format!("{:?}", c.tui_timezone)),
@@ -148,16 +148,27 @@ fn draw(r: &mut Prng, opts: &[Opt], forced: Option<(&'static str, St)>) -> Case 
         }
     };
     let is_forced = |n: &str| forced.is_some_and(|(f, _)| f == n);
+    let _ = &eff;
+    // effective value of an option, rendered like its getter
+    let val = |states: &BTreeMap<&'static str, (St, usize, usize)>, name: &str| -> String {
+        let o = opts.iter().find(|o| o.name == name).unwrap();
+        expected(o, states[name])
+    };
+    // give a background option a specific value (index `i`) wherever it is given
+    let set_to = |states: &mut BTreeMap<&'static str, (St, usize, usize)>, name: &'static str, i: usize| {
+        let (st, _, _) = states[name];
+        let st = match st {
+            St::Absent => St::File,
+            St::Both => St::Cli,
+            s => s,
+        };
+        states.insert(name, (st, i, i));
+    };
     // ---- documented cross-option rules: repair the background, never the option under test
     // flags: "both" means the file says false and the command line switches it on
     // verbose logging is not drawn at all; tui mode is the default
     // unprivileged excludes paris / dublin
-    let unpriv_on = |s: &BTreeMap<&'static str, (St, usize, usize)>| match s["unprivileged"] {
-        (St::Absent, _, _) => false,
-        (St::File, a, _) => a == 0,
-        _ => true,
-    };
-    if unpriv_on(&states) && eff(&states, "multipath-strategy").is_some() {
+    if val(&states, "unprivileged") == "true" && val(&states, "multipath-strategy") != "Classic" {
         if is_forced("multipath-strategy") {
             states.insert("unprivileged", (St::Absent, 0, 1));
         } else {
@@ -165,34 +176,24 @@ fn draw(r: &mut Prng, opts: &[Opt], forced: Option<(&'static str, St)>) -> Case 
         }
     }
     // paris / dublin need udp
-    if eff(&states, "multipath-strategy").is_some() && eff(&states, "protocol") != Some(0) {
+    if val(&states, "multipath-strategy") != "Classic" && val(&states, "protocol") != "Udp" {
         if is_forced("protocol") {
             states.insert("multipath-strategy", (St::Absent, 0, 1));
         } else {
             // protocol udp is value index 0
-            let (st, _, _) = states["protocol"];
-            let st = if st == St::Absent { St::File } else { st };
-            states.insert("protocol", (st, 0, 0));
-            if st == St::Both {
-                states.insert("protocol", (St::Cli, 0, 0));
-            }
+            set_to(&mut states, "protocol", 0);
         }
     }
     // AS lookups need a resolver other than system
-    let as_on = match states["dns-lookup-as-info"] {
-        (St::Absent, _, _) => false,
-        (St::File, a, _) => a == 0,
-        _ => true,
-    };
-    if as_on && eff(&states, "dns-resolve-method").is_none() {
+    if val(&states, "dns-lookup-as-info") == "true" && val(&states, "dns-resolve-method") == "System" {
         if is_forced("dns-resolve-method") {
             states.insert("dns-lookup-as-info", (St::Absent, 0, 1));
         } else {
-            states.insert("dns-resolve-method", (St::File, 0, 1));
+            set_to(&mut states, "dns-resolve-method", 0);
         }
     }
     // a geoip mode needs a database file
-    if eff(&states, "tui-geoip-mode").is_some() && eff(&states, "geoip-mmdb-file").is_none() {
+    if val(&states, "tui-geoip-mode") != "Off" && val(&states, "geoip-mmdb-file") == "None" {
         if is_forced("geoip-mmdb-file") {
             states.insert("tui-geoip-mode", (St::Absent, 0, 1));
         } else {
